@@ -1,4 +1,5 @@
 import NeumannModel.TwoPC.Lemmas
+import NeumannModel.TwoPC.LemmasPart
 /-
   C03 — "Two-phase commit: every participant reaches the coordinator's one decision".
   ONLY the property theorems and their non-vacuity examples; helpers are in `Lemmas*.lean`.
@@ -55,6 +56,50 @@ theorem applied_implies_no_yes_voter_discards (stores : List Store) (tt mc lt : 
   have hinv := (InvA.init stores tt mc lt).reach hr
   exact fun hd => hinv.excl tx (hinv.applied sh1 tx ha) (hinv.discarded sh2 tx hd)
 
+/-- Aborted and timed-out transactions leave every shard's data exactly as it was — in the
+    strongest step form: EVERY event of the alphabet other than the delivery of a commit message
+    (so: every abort delivery — first, duplicate or late —, every timeout sweep, coordinator abort,
+    prepare, vote, begin, tick) leaves every key of every shard unchanged. -/
+theorem abort_restores_shard (stores : List Store) (tt mc lt : Nat) {s : Sys}
+    (hr : Reach (Sys.init stores tt mc lt) s) (e : Ev) (ha : s.inAlphabet e = true)
+    (hne : ∀ i tx sh, e = .deliver i → s.msgs[i]? ≠ some (Msg.commit tx sh)) :
+    ∀ sh k, sget ((s.step e).storeOf sh) k = sget (s.storeOf sh) k :=
+  (((SInv.init stores tt mc lt).reach hr).step e ha).2 hne
+
+/-- … and over any stretch of execution without a commit delivery. -/
+theorem abort_restores_shard_run (stores : List Store) (tt mc lt : Nat) {s : Sys}
+    (hr : Reach (Sys.init stores tt mc lt) s) (es : List Ev) (hq : s.quiet es = true) :
+    ∀ sh k, sget ((s.run es).storeOf sh) k = sget (s.storeOf sh) k := by
+  induction es generalizing s with
+  | nil => intro _ _; rfl
+  | cons e es ih =>
+    simp only [Sys.quiet, Bool.and_eq_true] at hq
+    obtain ⟨⟨ha, hnc⟩, hq'⟩ := hq
+    intro sh k
+    have h1 := ih (Reach.step e hr ha) hq' sh k
+    have h2 := abort_restores_shard stores tt mc lt hr e ha (by
+      intro i tx sh' he hm
+      subst he
+      simp only [hm] at hnc
+      cases hnc) sh k
+    exact h1.trans h2
+
+/-- Whenever an event changes some shard's data, it is the delivery of a commit message of a
+    transaction whose (only) decision is commit: an aborted / timed-out transaction never changes data. -/
+theorem data_change_needs_commit_decision (stores : List Store) (tt mc lt : Nat) {s : Sys}
+    (hr : Reach (Sys.init stores tt mc lt) s) (e : Ev) (ha : s.inAlphabet e = true) (sh k : Nat)
+    (hch : sget ((s.step e).storeOf sh) k ≠ sget (s.storeOf sh) k) :
+    ∃ i tx sh', e = .deliver i ∧ s.msgs[i]? = some (Msg.commit tx sh') ∧
+      (tx, true) ∈ s.decided ∧ (tx, false) ∉ s.decided := by
+  have hinv := (InvA.init stores tt mc lt).reach hr
+  apply Classical.byContradiction
+  intro hno
+  apply hch
+  apply abort_restores_shard stores tt mc lt hr e ha
+  intro i tx sh' he hm
+  have hd := hinv.commitMsg tx sh' (List.mem_of_getElem? hm)
+  exact hno ⟨i, tx, sh', he, hm, hd, hinv.excl tx hd⟩
+
 /-! ### non-vacuity: a concrete 2-shard run committing tx 0 and aborting (timing out) tx 1 -/
 
 def demoInit : Sys := Sys.init [[(1, 5)], []] 2 100 1000
@@ -71,6 +116,11 @@ example : (demoInit.run demoRun).applied = [(0, 0), (1, 0)] := by decide
 example : (demoInit.run demoRun).discarded = [(1, 1)] := by decide
 example : sget ((demoInit.run demoRun).storeOf 0) 1 = some 7 ∧ sget ((demoInit.run demoRun).storeOf 1) 3 = some 9 := by
   decide
+
+-- the stretch `tx 1 prepares, times out, is aborted, its late vote arrives` is quiet, and non-trivially so
+example : ((demoInit.run (demoRun.take 9)).quiet (demoRun.drop 9)) = true := by decide
+-- the hypotheses of `abort_restores_shard` hold for the delivery of tx 1's abort to the shard that prepared it
+example : (demoInit.run (demoRun.take 13)).msgs[10]? = some (Msg.abort 1 1) := by decide
 
 /-! ### the two counter-traces over the EXTENDED alphabet (outside C03's quantifier) -/
 
